@@ -602,6 +602,77 @@ theorem c_prepare_gates :
       [("db_lib.exec", "luaCheckView,sqlcheck_is_permitted_sql"), ("db_lib.query", "sqlcheck_is_readonly_sql"),
        ("db_lib.prepare", "sqlcheck_is_permitted_sql")] := rfl
 
+/-! ## Round 3 — a read-only context is identified by its own slot
+
+Every guard reads `contexts[service]`, `service` being the slot number stored in the Lua state.  The slots below
+`MaxVmService` (`BlockFactory`, `ChainService`) hold the context of the transaction being executed: `Call` / `Create`
+store it there without looking.  A query gets its slot from `allocContextSlot`; that a query's code is checked against
+the query's own context (`isQuery = true`) rests on that scan never producing a reserved slot, never handing out a slot
+that is held (the `contexts[index] == nil` test under `querySync`; driven on the real code by harness/c20 slotdrive),
+and on nobody else writing those slots. -/
+
+/-- **The slot scan stays off the reserved slots.**  `Gen.HostApi.slotStep` is the index update of `allocContextSlot`
+translated from the current source.  For every pool size above the reserved slots and every index the scan can be at
+(`lastQueryIndex` starts at `ChainService`), the next index is a query slot: in `[MaxVmService, maxContext)`. -/
+theorem slot_step_in_range (maxContext index : Int) (hm : Gen.HostApi.MaxVmService < maxContext)
+    (hi : Gen.HostApi.ChainService ≤ index ∧ index < maxContext) :
+    Gen.HostApi.MaxVmService ≤ Gen.HostApi.slotStep maxContext index ∧
+      Gen.HostApi.slotStep maxContext index < maxContext := by
+  simp only [Gen.HostApi.slotStep, Gen.HostApi.MaxVmService, Gen.HostApi.ChainService] at *
+  repeat' split
+  all_goals omega
+
+/-- … and it is the cyclic successor on the query slots (so the scan visits every query slot before it comes back to
+where it started: a free slot is found if there is one). -/
+theorem slot_step_cycles (maxContext index : Int) (_hm : Gen.HostApi.MaxVmService < maxContext)
+    (_hi : Gen.HostApi.ChainService ≤ index ∧ index < maxContext) :
+    Gen.HostApi.slotStep maxContext index =
+      if index + 1 = maxContext then Gen.HostApi.MaxVmService else index + 1 := by
+  simp only [Gen.HostApi.slotStep, Gen.HostApi.MaxVmService, Gen.HostApi.ChainService] at *
+  repeat' split
+  all_goals omega
+
+/-- The indices the scan can ever be at: `lastQueryIndex`'s initial value, then any number of steps. -/
+def slotIter (maxContext : Int) : Nat → Int
+  | 0 => Gen.HostApi.slotInit
+  | n + 1 => Gen.HostApi.slotStep maxContext (slotIter maxContext n)
+
+/-- **All histories.**  Whatever number of steps the scans have made since the node started, the index is a valid
+position, and after the first step it is a query slot — never `BlockFactory` or `ChainService`. -/
+theorem slot_scan_never_reserved (maxContext : Int) (hm : Gen.HostApi.MaxVmService < maxContext) :
+    ∀ n, (Gen.HostApi.ChainService ≤ slotIter maxContext n ∧ slotIter maxContext n < maxContext) ∧
+      (0 < n → Gen.HostApi.MaxVmService ≤ slotIter maxContext n) := by
+  intro n
+  induction n with
+  | zero =>
+    refine ⟨?_, fun h => absurd h (by decide)⟩
+    simp only [slotIter, Gen.HostApi.slotInit, Gen.HostApi.ChainService, Gen.HostApi.MaxVmService] at *
+    omega
+  | succ k ih =>
+    have h := slot_step_in_range maxContext (slotIter maxContext k) hm ih.1
+    have hc : Gen.HostApi.ChainService ≤ Gen.HostApi.MaxVmService := by decide
+    exact ⟨⟨Int.le_trans hc h.1, h.2⟩, fun _ => h.1⟩
+
+/-- Test on sample values: with 5 slots the scan goes 1 → 2 → 3 → 4 → 2 … -/
+example : (List.range 6).map (slotIter 5) = [1, 2, 3, 4, 2, 3] := by decide
+
+/-- Who writes the slots.  `contexts[…]` is assigned by `Call` / `Create` (slot `ctx.service` of a context built by
+`NewVmContext`, whose `service` is the execution mode = a VM service slot), by `allocContextSlot` (slot `index` of the
+scan, stored into the query context's `service`) and cleared by `freeContextSlot`; `lastQueryIndex` is written only by
+the scan; `allocContextSlot` / `freeContextSlot` are called by `Query` and `CheckFeeDelegation` only.  So the reserved
+slots are written by the non-query entry points only, and a query context's `service` is a value of the scan. -/
+theorem context_slot_writers :
+    Gen.HostApi.slotStepTranslated = true ∧
+    Gen.HostApi.ctxSlotWrites =
+      [("Call", "ctx.service", "ctx"), ("Create", "ctx.service", "ctx"),
+       ("InitContext", "*", "make([]*vmContext, maxContext)"),
+       ("allocContextSlot", "index", "ctx"), ("freeContextSlot", "ctx.service", "nil")] ∧
+    Gen.HostApi.ctxServiceWrites = [("NewVmContext", "C.int(executionMode)"), ("allocContextSlot", "C.int(index)")] ∧
+    Gen.HostApi.lastQueryIndexWrites = [("allocContextSlot", "index")] ∧
+    Gen.HostApi.slotCallers =
+      [("allocContextSlot", "CheckFeeDelegation"), ("allocContextSlot", "Query"),
+       ("freeContextSlot", "CheckFeeDelegation"), ("freeContextSlot", "Query")] := ⟨rfl, rfl, rfl, rfl, rfl⟩
+
 /-! ## Round 3 — statesql.go is analysed -/
 
 /-- The only `sql.Open` reachable from the analysed entry points is `readOnlyConn`'s, through the query driver, with
